@@ -419,7 +419,8 @@ ReqVerdict(x) == LET br == ReqBroken(x) IN IF br = <<>> THEN "ok" ELSE br[1]
 
 (* C02 verdict for one recorded response parse x:
    x.b   received bytes;  x.v in {"reject", "raw", "typed"};  x.dyn = came from
-   parse_dynamic (registry kind must match) or from <Class>.from_pdu;
+   parse_dynamic or a client-side entry point built on it (helpers.parse_pdu,
+   UDSClient.request: registry kind must match) or from <Class>.from_pdu;
    x.kind, x.f exposed kind / fields (typed);  x.re [ok, b] re-serialisation *)
 RespBroken(x) ==
   IF x.v = "reject" THEN <<>>
